@@ -12,7 +12,7 @@
 From Coq Require Import Permutation Sorted.
 From CC Require Import Base.Prelude Base.Alloc Base.Ledger Generated.Status Generated.Constants Generated.Guards.
 From CC Require Import Rbuf.RbufModel SPool.SPoolModel DPool.DPoolModel Array.ArrayModel Deque.DequeModel PQueue.PQueueModel Hash.HashModel Tst.TstModel Tree.TreeModel List_.ListModel SList.SListModel.
-From CC Require Import Array.ArrayMore Deque.DequeProofs5 Hash.HashProofsD List_.ListProofs7 SList.SListProofs6 Tree.TreeTheorems Tst.TstProofs3 Tst.TstProofs4.
+From CC Require Import Array.ArrayMore Array.ArrayZip Deque.DequeProofs5 Hash.HashProofsD List_.ListProofs7 SList.SListProofs6 Tree.TreeTheorems Tst.TstProofs3 Tst.TstProofs4.
 Local Open Scope N_scope.
 
 (** CC_Array / CC_Stack (the stack iterator is the array iterator) *)
@@ -113,6 +113,105 @@ Theorem C07_array_zip_next :
          end.
 Proof. exact CC.Array.ArrayMore.zip_next_spec. Qed.
 Print Assumptions C07_array_zip_next.
+
+(** zip remove after a yield: exactly the yielded pair leaves both arrays, the traversal continues with the unvisited pairs *)
+Theorem C07_array_zip_remove :
+  forall (a1 a2 : arr) (it : aiter),
+         a_size a1 < W ->
+         a_size a2 < W ->
+         it_removed it = false ->
+         0 < ArrayModel.it_index it ->
+         ArrayModel.it_index it <= a_size a1 ->
+         ArrayModel.it_index it <= a_size a2 ->
+         exists x y : N,
+           getN (a_data a1) (ArrayModel.it_index it - 1) = Some x /\
+           getN (a_data a2) (ArrayModel.it_index it - 1) = Some y /\
+           ArrayModel.zip_remove a1 a2 it =
+           (CC_OK, Some (x, y), ArrayModel.set_data a1 (removeN (a_data a1) (ArrayModel.it_index it - 1)),
+            ArrayModel.set_data a2 (removeN (a_data a2) (ArrayModel.it_index it - 1)),
+            {| ArrayModel.it_index := ArrayModel.it_index it - 1; it_removed := true |}) /\
+           skipnN (ArrayModel.it_index it - 1) (removeN (a_data a1) (ArrayModel.it_index it - 1)) =
+           skipnN (ArrayModel.it_index it) (a_data a1) /\
+           skipnN (ArrayModel.it_index it - 1) (removeN (a_data a2) (ArrayModel.it_index it - 1)) =
+           skipnN (ArrayModel.it_index it) (a_data a2) /\
+           firstnN (ArrayModel.it_index it - 1) (removeN (a_data a1) (ArrayModel.it_index it - 1)) =
+           firstnN (ArrayModel.it_index it - 1) (a_data a1) /\
+           firstnN (ArrayModel.it_index it - 1) (removeN (a_data a2) (ArrayModel.it_index it - 1)) =
+           firstnN (ArrayModel.it_index it - 1) (a_data a2).
+Proof. exact CC.Array.ArrayZip.zip_remove_spec. Qed.
+Print Assumptions C07_array_zip_remove.
+
+(** zip remove twice without a new yield is refused *)
+Theorem C07_array_zip_remove_twice :
+  forall (a1 a2 : arr) (it : aiter),
+         a_size a1 < W ->
+         a_size a2 < W ->
+         it_removed it = true ->
+         ArrayModel.it_index it < a_size a1 ->
+         ArrayModel.it_index it < a_size a2 ->
+         0 < ArrayModel.it_index it ->
+         ArrayModel.zip_remove a1 a2 it = (CC_ERR_VALUE_NOT_FOUND, None, a1, a2, it).
+Proof. exact CC.Array.ArrayZip.zip_remove_twice. Qed.
+Print Assumptions C07_array_zip_remove_twice.
+
+(** zip replace after a yield: the yielded pair is overwritten in place in both arrays, nothing else changes *)
+Theorem C07_array_zip_replace :
+  forall (a1 a2 : arr) (it : aiter) (x y : N),
+         a_size a1 < W ->
+         a_size a2 < W ->
+         0 < ArrayModel.it_index it ->
+         ArrayModel.it_index it <= a_size a1 ->
+         ArrayModel.it_index it <= a_size a2 ->
+         exists (o1 o2 : N) (l1 l2 : list N),
+           getN (a_data a1) (ArrayModel.it_index it - 1) = Some o1 /\
+           getN (a_data a2) (ArrayModel.it_index it - 1) = Some o2 /\
+           updN (a_data a1) (ArrayModel.it_index it - 1) x = Some l1 /\
+           updN (a_data a2) (ArrayModel.it_index it - 1) y = Some l2 /\
+           ArrayModel.zip_replace a1 a2 it x y =
+           (CC_OK, Some (o1, o2), ArrayModel.set_data a1 l1, ArrayModel.set_data a2 l2) /\
+           lenN l1 = a_size a1 /\
+           lenN l2 = a_size a2 /\
+           (forall j : N,
+            j <> ArrayModel.it_index it - 1 -> getN l1 j = getN (a_data a1) j /\ getN l2 j = getN (a_data a2) j).
+Proof. exact CC.Array.ArrayZip.zip_replace_spec. Qed.
+Print Assumptions C07_array_zip_replace.
+
+(** zip remove/replace before any yield or beyond the shorter array are refused and change nothing *)
+Theorem C07_array_zip_range :
+  forall (a1 a2 : arr) (it : aiter) (x y : N),
+         a_size a1 < W ->
+         a_size a2 < W ->
+         ArrayModel.it_index it < W ->
+         ArrayModel.it_index it = 0 \/ a_size a1 < ArrayModel.it_index it \/ a_size a2 < ArrayModel.it_index it ->
+         ArrayModel.zip_remove a1 a2 it = (CC_ERR_OUT_OF_RANGE, None, a1, a2, it) /\
+         ArrayModel.zip_replace a1 a2 it x y = (CC_ERR_OUT_OF_RANGE, None, a1, a2).
+Proof. exact CC.Array.ArrayZip.zip_mutators_range. Qed.
+Print Assumptions C07_array_zip_range.
+
+(** zip add after a yield: both arrays receive their element at the cursor and the cursor steps over the pair; a refused allocation leaves both contents and the cursor unchanged *)
+Theorem C07_array_zip_add :
+  forall (a1 a2 : arr) (it : aiter) (x y : N) (al : alloc_st),
+         ArrayProofs.arr_inv a1 al ->
+         ArrayProofs.lim_ok a1 al ->
+         ArrayProofs.arr_inv a2 al ->
+         ArrayProofs.lim_ok a2 al ->
+         a_blk a1 <> a_hdr a2 ->
+         a_blk a1 <> a_blk a2 ->
+         a_blk a2 <> a_hdr a1 ->
+         ArrayModel.it_index it <= a_size a1 ->
+         ArrayModel.it_index it <= a_size a2 ->
+         exists (st : stat) (b1 b2 : arr) (it' : aiter) (al' : alloc_st),
+           ArrayModel.zip_add a1 a2 it x y al = Ok (st, b1, b2, it', al') /\
+           (st = CC_OK /\
+            a_data b1 = insertN (a_data a1) (ArrayModel.it_index it) x /\
+            a_data b2 = insertN (a_data a2) (ArrayModel.it_index it) y /\
+            ArrayModel.it_index it' = ArrayModel.it_index it + 1 /\
+            it_removed it' = it_removed it /\ ArrayProofs.arr_inv b1 al' /\ ArrayProofs.arr_inv b2 al' \/
+            st = CC_ERR_ALLOC /\
+            a_data b1 = a_data a1 /\
+            a_data b2 = a_data a2 /\ it' = it /\ ArrayProofs.arr_inv b1 al' /\ ArrayProofs.arr_inv b2 al').
+Proof. exact CC.Array.ArrayZip.zip_add_spec. Qed.
+Print Assumptions C07_array_zip_add.
 
 (** CC_Deque / CC_Queue, every layout *)
 Theorem C07_deque_next :
